@@ -571,7 +571,11 @@ class Sym:
                     pexpr = pos[0] if is_re else e.func.value
                     rexpr = next((k.value for k in e.keywords if k.arg == "repl"), pos[need - 2] if len(pos) >= need - 1 else e)
                     self.events.append({"kind": "sub", "fi": fi, "node": e, "pattern": pexpr, "repl": rv, "repl_expr": rexpr,
-                                        "limited": len(pos) > need or "count" in kw or "flags" in kw})
+                                        "extras": [(nm, vals) for nm, vals in
+                                                   [("count", kw.get("count", args[need] if len(args) > need else None)),
+                                                    ("flags", kw.get("flags", args[need + 1] if is_re and len(args) > need + 1 else None))]
+                                                   if vals is not None]
+                                                  + [("extra argument", a) for a in args[need + (2 if is_re else 1):]]})
                     return self.with_op(sv, ("sub", len(self.events) - 1, fi.where(e)))
         if self.is_text(b) or b[0] == "esc":
             if m in QUERIES:
@@ -1091,8 +1095,16 @@ def r11_5_6_7(ctx: Ctx, table: dict, worlds: dict) -> list:
     for ev in subs:
         fi, node = ev["fi"], ev["node"]
         ctx.instance("R11.7", fi.where(node), f"{fi.short}: regex substitution `{unparse(node)[:70]}`")
-        if ev["limited"]:
-            ctx.violation("R11.7", fi.short, "substitution with count/flags", fi.where(node), "the substitution is limited by a count or modified by flags")
+        # count=0 / flags=0 are the defaults ("replace all", no flags): only a value that can be non-zero changes the pass
+        for nm, vals in ev["extras"]:
+            pvs = [sy.pyval(v) for v in vals]
+            nonzero = [pv for ok, pv in pvs if ok and pv not in (0, None)]
+            if nonzero:
+                ctx.violation("R11.7", fi.short, "substitution with count/flags", fi.where(node),
+                              f"the substitution is limited or modified: {nm}={nonzero[0]!r} (only the first matches are converted / matching is altered)")
+            elif not all(ok for ok, _ in pvs):
+                ctx.gap("R11.7", f"{fi.short}: `{unparse(node)[:70]}` passes a {nm} whose value could not be evaluated to a constant; "
+                                 "whether every command is converted is undecided")
         n0 = len(sy.events)
         res = set()
         for cb in ev["repl"]:
